@@ -18,6 +18,7 @@ shutil.rmtree(WT, ignore_errors=True)
 rc, out = sh(['git', '-C', '/repo', 'worktree', 'add', '--detach', WT, 'HEAD'])
 assert rc == 0, out
 summary = []
+head = sh(['git', '-C', '/repo', 'rev-parse', 'HEAD'])[1].strip()
 try:
     for name in sorted(os.listdir(os.path.join(HERE, 'seeded'))):
         d = os.path.join(HERE, 'seeded', name)
@@ -25,6 +26,8 @@ try:
             continue
         meta = json.load(open(os.path.join(d, 'meta.json')))
         sh(['git', '-C', WT, 'reset', '--hard', '-q'])
+        # a seed that a later library fix made harmless is re-checked against the tree it was written for
+        sh(['git', '-C', WT, 'checkout', '-q', '--detach', meta.get('base') or head])
         rc, out = sh(['git', '-C', WT, 'apply', os.path.join(d, 'patch.diff')])
         if rc:
             # same change, context moved by later fixes: let patch(1) place the hunks with some fuzz
